@@ -90,13 +90,36 @@ def team_gate_rules(ctx: Ctx, rid: str):
                    "the team gate does not call limitsOk(slot, member) for each member inside the gate loop: a task limit "
                    "restricted to one member does not hold the whole team back, so members are booked for different instants",
                    key=key_of(rid, brs, None, "gate per-member limits"))
-    # failing gate leaves the function
-    for n in own_nodes(brs):
-        if isinstance(n, ast.If) and norm(n.test) == "not all_available":
-            ok = any(isinstance(s, ast.Return) for s in n.body)
-            ctx.ob(rid, f"{brs.qual}: failing gate returns", (brs, n), ok,
-                   "nobody is booked when a member is unavailable" if ok else "a failing gate does not stop the booking",
-                   key=key_of(rid, brs, None, "gate return"))
+    # failing gate leaves the function: from the branch taken when a member is unavailable (or over its limits) no member booking
+    # is reachable -- whether the gate returns at once, or sets a flag, leaves the loop and returns on the flag
+    from .common import feasible_reach
+    book_nodes = {g.node_containing(c).id for c in calls if g.node_containing(c) is not None}
+    n_gate = 0
+    all_gate_loops = [l for l in loops if any(isinstance(x, ast.Call) and isinstance(x.func, ast.Attribute) and x.func.attr == "available" for x in ast.walk(l))
+                      and not any(any(x is c for x in ast.walk(l)) for c in calls)]
+    for gl in all_gate_loops:
+        for i in ast.walk(gl):
+            if not isinstance(i, ast.If):
+                continue
+            t = norm(i.test)
+            if not (("available(" in t or "limitsOk(" in t or "is None" in t) and ("not " in t or "is None" in t)):
+                continue
+            if not i.body:
+                continue
+            # a test that gives the member up: its branch leaves the gate (break / return) or lowers a flag
+            if not any(isinstance(x, (ast.Break, ast.Return)) or (isinstance(x, ast.Assign) and isinstance(x.value, ast.Constant) and x.value.value is False)
+                       for st_ in i.body for x in ast.walk(st_)):
+                continue
+            start = g.node_of(i.body[0]) or g.node_containing(i.body[0])
+            if start is None:
+                continue
+            n_gate += 1
+            leaks = start.id in book_nodes or feasible_reach(g, start, book_nodes)
+            ctx.ob(rid, f"{brs.qual}: failing gate test `{t[:50]}` leaves without booking", (brs, i), not leaks,
+                   "nobody is booked when a member is unavailable" if not leaks else "a failing gate does not stop the booking",
+                   key=key_of(rid, brs, None, f"gate return {t[:40]}"))
+    if not n_gate:
+        raise AnchorMissing("bookResources: no failing-member test found in the team gate")
 
 
 
